@@ -15,23 +15,31 @@ size_t vg_E;          /* one earlier output byte */
 /* ghost command log */
 #define VG_LIT 1
 #define VG_COPY 2
-struct vg_cmd { int kind; unsigned a, b; };
+/* one entry per TOP-LEVEL command: kind, operands (literal: a = byte, b = 1; copy: a = position, b = length) and the
+   output offset at which the command's bytes start.  vg_depth != 0 while a copy block is emitting its bytes through
+   output_byte, so that those nested calls are not logged as literals. */
+struct vg_cmd { int kind; unsigned a, b; size_t off; };
 #define VG_LOG_MAX 16
 struct vg_cmd vg_log[VG_LOG_MAX];
 unsigned vg_n;
-#define VG_LOG_APPEND(k, x, y) (vg_log[vg_n].kind = (k), vg_log[vg_n].a = (x), vg_log[vg_n].b = (y), vg_n = vg_n + 1)
+unsigned vg_depth;
+size_t vg_C;          /* Skolem index of one logged command */
+#define VG_LOG_APPEND(k, x, y, o) (vg_log[vg_n].kind = (k), vg_log[vg_n].a = (x), vg_log[vg_n].b = (y), vg_log[vg_n].off = (o), vg_n = vg_n + 1)
+#define VG_LOG_IS(i, k, x, y, o) (vg_log[i].kind == (k) && vg_log[i].a == (x) && vg_log[i].b == (y) && vg_log[i].off == (o))
 
 /* old-value accessors: contract mode (DFCC history variables) or harness mode (explicit snapshot) */
 #ifdef VG_HARNESS_MODE
 #define VG_P0     vg_p0
 #define VG_L0     vg_l0
 #define VG_N0     vg_n0
+#define VG_D0     vg_d0
 #define VG_R0(i)  (vg_dec0.ringbuf[i])
 #define VG_O0(i)  (vg_out0.b[i])
 #else
 #define VG_P0     __CPROVER_old(vg_dec.ringbuf_pos)
 #define VG_L0     __CPROVER_old(*buf_len)
 #define VG_N0     __CPROVER_old(vg_n)
+#define VG_D0     __CPROVER_old(vg_depth)
 #define VG_R0(i)  __CPROVER_old(vg_dec.ringbuf[i])
 #define VG_O0(i)  __CPROVER_old(vg_out[i])
 #endif
@@ -43,7 +51,7 @@ unsigned vg_n;
 #define LZS_OB_POST_POS     (vg_dec.ringbuf_pos == (VG_P0 + 1) % RING_BUFFER_SIZE)
 #define LZS_OB_POST_RING    (vg_dec.ringbuf[vg_Y] == (vg_Y == VG_P0 ? b : VG_R0(vg_Y)))
 #define LZS_OB_POST_EARLIER (vg_E < VG_L0 ==> vg_out[vg_E] == VG_O0(vg_E))
-#define LZS_OB_POST_LOG     (vg_n == VG_N0 + 1 && vg_log[VG_N0].kind == VG_LIT && vg_log[VG_N0].a == b)
+#define LZS_OB_POST_LOG     (vg_depth == VG_D0 && (VG_D0 == 0 ? (vg_n == VG_N0 + 1 && VG_LOG_IS(VG_N0, VG_LIT, b, 1, VG_L0)) : vg_n == VG_N0))
 
 /* output_block(decoder, buf, buf_len, start, len): LZ77 copy from ABSOLUTE ring position start.
    The *_ forms take the operands explicitly so that dispatchers can state the effect of the command
@@ -62,4 +70,5 @@ unsigned vg_n;
 #define LZS_BLK_POST_BYTE    LZS_BLK_POST_BYTE_(start, len, VG_L0, VG_P0)
 #define LZS_BLK_POST_RING    LZS_BLK_POST_RING_(len, VG_L0, VG_P0)
 #define LZS_BLK_POST_EARLIER (vg_E < VG_L0 ==> vg_out[vg_E] == VG_O0(vg_E))
+#define LZS_BLK_POST_LOG     (vg_depth == 0 && vg_n == VG_N0 + 1 && VG_LOG_IS(VG_N0, VG_COPY, start, len, VG_L0))
 #endif
